@@ -174,7 +174,7 @@ def check_context_free(ctx):
     ctx.floor("R9.1", "context-free predict methods", n, 6)
 
 
-def _draws(root, eng):
+def _draws(root, eng, config=None):
     out = []
     for ev, anc in walk(root):
         if ev.kind != "draw":
@@ -184,7 +184,11 @@ def _draws(root, eng):
         exc = [q for q in frames if q in EXCEPTION_FUNCS]
         if "_TreeBandit._predict_contexts" in frames:
             # only the exploration draws made directly by _predict_contexts are the exception
-            exc = ["_TreeBandit._predict_contexts"] if user.qualname == "_TreeBandit._predict_contexts" else [
+            # (epsilon-greedy exploration of predict; for every other learning policy predict must not draw more
+            # than predict_expectations does)
+            own = user.qualname == "_TreeBandit._predict_contexts" and (config is None or
+                                                                         config.lp == "EpsilonGreedy")
+            exc = ["_TreeBandit._predict_contexts"] if own else [
                 q for q in exc if q != "_TreeBandit._predict_contexts"]
         # entry-independent identity: the drawing method and its user, without predict/predict_expectations frames
         out.append((ev.a["method"], user.qualname, bool(exc), ev))
@@ -200,8 +204,8 @@ def check_streams(ctx, F):
                 continue
             ra, rb = F.trace(c, la), F.trace(c, lb)
             wa = F.focus(c, ra)
-            da = [(m, u) for m, u, exc, ev in _draws(ra, wa.eng) if not exc]
-            db = [(m, u) for m, u, exc, ev in _draws(rb, wa.eng) if not exc]
+            da = [(m, u) for m, u, exc, ev in _draws(ra, wa.eng, c) if not exc]
+            db = [(m, u) for m, u, exc, ev in _draws(rb, wa.eng, c) if not exc]
             n += 1
             top = ra.children[0].a["callee"]
             ctx.check(da == db, "R9.2", "predict and predict_expectations consume the random stream identically "
